@@ -114,7 +114,8 @@ def run(ctx):
         else:
             scans = [s if s == scans[i] or s == "*" else "*" for s in scans]     # keep members in step in breadth-first runs
         # (the breadth-first methods trim lines elsewhere and do not raise here: the out-of-component abort is for the serial methods)
-        kind = "limit" if (line >= 1 and "by_line" not in method and rng.random() < 0.4) else "expr"
+        # (of the breadth-first methods only collect_by_line trims collected lines and can raise here)
+        kind = "limit" if (line >= 1 and ("by_line" not in method or method == "collect_by_line") and rng.random() < 0.4) else "expr"
         # the error policy of the aborting member: raise alone, or raise together with stop / fail / collect / print (the library's own default order)
         vmode = rng.choice(["raise", "raise", "raise, stop", "raise, collect, stop, fail, print", "raise, fail", "stop, raise"])
         jobs.append(make_job(jid, n, i, line, nrec, method, scans, kind, rng.choice(METHODS), vmode))      # the further run on the same instance uses any of the methods
